@@ -306,6 +306,50 @@ pub fn cmd_minimize(args: &[String]) -> i32 {
     0
 }
 
+/// Shrink a case whose run hangs: candidates are replayed in child processes (a hang ends the
+/// process), up to 16 at a time; the first candidate (in shrink order) that still hangs is adopted.
+fn minimise_hang(exe: &Path, scn: &dyn DynScenario, seed: u64, case: Value, violation: &Value, work: &Path) -> (Value, usize) {
+    let mut cur = case;
+    let mut tried = 0usize;
+    for round in 0..12 {
+        let cands: Vec<Value> = scn.shrink_json(&cur).into_iter().take(48).collect();
+        if cands.is_empty() {
+            break;
+        }
+        let mut adopted: Option<Value> = None;
+        for (ci, chunk) in cands.chunks(16).enumerate() {
+            let mut kids = Vec::new();
+            for (i, c) in chunk.iter().enumerate() {
+                let f = work.join(format!("hang-cand-{round}-{ci}-{i}.json"));
+                let _ = std::fs::write(&f, serde_json::to_vec(&json!({"property": scn.property(), "seed": seed, "case": c, "violation": violation})).unwrap_or_default());
+                let child = std::process::Command::new(exe).arg("replay").arg(&f).arg("--quiet").env("PATH", work.join("emptybin")).stderr(std::process::Stdio::null()).stdout(std::process::Stdio::piped()).spawn();
+                kids.push((i, child));
+            }
+            let mut hit: Option<usize> = None;
+            for (i, child) in kids {
+                tried += 1;
+                if let Ok(ch) = child {
+                    if let Ok(o) = ch.wait_with_output() {
+                        let same = String::from_utf8_lossy(&o.stdout).contains("REPLAY hang reproduced=true");
+                        if o.status.code() == Some(1) && same && hit.is_none_or(|h| i < h) {
+                            hit = Some(i);
+                        }
+                    }
+                }
+            }
+            if let Some(i) = hit {
+                adopted = Some(chunk[i].clone());
+                break;
+            }
+        }
+        match adopted {
+            Some(c) => cur = c,
+            None => break,
+        }
+    }
+    (cur, tried)
+}
+
 // ---------------------------------------------------------------------------------------
 // replay
 // ---------------------------------------------------------------------------------------
@@ -466,7 +510,9 @@ pub fn cmd_run(args: &[String]) -> i32 {
                 let resume = summary.get("resume").and_then(Value::as_u64).unwrap_or(runs);
                 hang_restarts += 1;
                 let left = deadline_s.saturating_sub((seams::real_mono_ns() - t0) / 1_000_000_000).max(1);
-                if hang_restarts < 200 && resume < runs {
+                // a handful of hung runs is enough evidence; every further one costs a whole watchdog period
+                let within_deadline = (seams::real_mono_ns() - t0) / 1_000_000_000 < deadline_s;
+                if hang_restarts < 32 && resume < runs && within_deadline {
                     match spawn_worker(&exe, scn.property(), tier, seed, w, workers, runs, resume, part + 1, &out, left) {
                         Ok(c) => children.push((w, part + 1, c)),
                         Err(e) => harness_errors.push(format!("cannot respawn worker {w}: {e}")),
@@ -583,6 +629,20 @@ pub fn cmd_run(args: &[String]) -> i32 {
                 .stderr(std::process::Stdio::null())
                 .status();
             minimised_ok = st.map(|s| s.success()).unwrap_or(false) && replay_path.exists();
+        }
+        if is_hang {
+            // a hung candidate costs the whole watchdog: shrink with parallel child replays, few rounds
+            let (mc, tried) = minimise_hang(&exe, scn.as_ref(), rseed, crate::framework::apply_patch(&first["case"], first["violation"].get("patch")), &first["violation"], &out);
+            let _ = std::fs::write(
+                &replay_path,
+                serde_json::to_vec_pretty(&json!({
+                    "property": scn.property(), "scenario": scn.name(), "seed": rseed, "case": mc,
+                    "violation": first["violation"], "signature": sig,
+                    "minimisation": {"candidates_tried": tried, "method": "hang: each candidate replayed in a child process, 16 at a time"}
+                }))
+                .unwrap_or_default(),
+            );
+            minimised_ok = true;
         }
         if !minimised_ok {
             let _ = std::fs::write(
